@@ -16,9 +16,19 @@ Claimed for the clauses that are identities/inequalities over the reals:
     (the physically consistent parameter domain is only encoded in the models'
     random generators), never reported as violations;
 (e) under dispersity <F>^2 <= <F^2> follows from the per-point inequality by
-    Cauchy-Schwarz: proved by the solver for meshes of <= 3 points.
+    Cauchy-Schwarz: proved by the solver for meshes of <= 3 points;
+(f) extended: the per-particle inequality F1^2 <= F2 of the orientation-averaged
+    (anisotropic) models, by a Cauchy-Schwarz *certificate* over the model's own
+    quadrature: Fq is interpreted from IR including its Gauss loops (special
+    functions uninterpreted, libm at the concrete quadrature nodes folded), F1
+    and F2 are expanded into their addends a_k, b_k in accumulation order, and
+    the solver proves a_k^2 = c_k b_k for all parameters and q (c_k >= 0 a
+    constant, 1e-9 relative) for every addend; with sum c_k <= 1 the inequality
+    follows.  A model without a complete certificate is 'undecided' unless a
+    numeric witness of <F>^2 > <F^2> is found on the real DLL (then a violation).
 """
 import math
+import os
 from fractions import Fraction
 
 import numpy as np
@@ -336,9 +346,10 @@ def run(chk):
     chk.explanation = __doc__
     chk.bounds = {"(a)": "26 models with amplitude output; mono and one dispersed parameter x3; 1-D",
                   "(b)": "8 spherically symmetric models; vector-length control parameter n in {1,2}",
-                  "(c),(d)": "every declared effective-radius mode of the 26 models", "(e)": "meshes of 1..3 points"}
-    chk.outside = ["the per-particle inequality F1^2 <= F2 for anisotropic shapes (orientation average: a quadratic form in "
-                   "76-5776 quadrature values; assumed in (e))", "the q -> 0 limit clause (a limit of special functions)",
+                  "(c),(d)": "every declared effective-radius mode of the 26 models", "(e)": "meshes of 1..3 points",
+                  "(f)": "10 anisotropic models quick / all 18 thorough; <= 20000 addends; 300 s (quick) / 900 s (thorough) per model"}
+    chk.outside = ["the per-particle inequality F1^2 <= F2 for the anisotropic models whose certificate (f) is reported as "
+                   "undecided in the notes (assumed in (e))", "the q -> 0 limit clause (a limit of special functions)",
                    "finiteness under overflow (reals)", "positivity obligations that z3 returns unknown for are listed as undecided"]
     chk.stubs = ["sas_* special functions, Si, gamma -> uninterpreted", "libm -> uninterpreted with sqrt/cbrt/exp axioms", "as C01 for (a)"]
     chk.assumptions = ["(d): every volume-type parameter > 0 and the model's validity predicate", "(e): per-point F1_k^2 <= F2_k, w_k >= 0, sum w > 0",
@@ -364,7 +375,9 @@ def run(chk):
     # all of them in thorough
     aniso = [n for n in fq_models() if n not in SPHERICAL]
     single = ["cylinder", "ellipsoid", "core_shell_cylinder", "hollow_cylinder", "core_shell_ellipsoid", "barbell",
-              "capped_cylinder", "core_shell_bicelle"]
+              "capped_cylinder", "core_shell_bicelle",
+              # two double-quadrature models (5776 addends each) also in the quick tier
+              "core_shell_bicelle_elliptical_belt_rough", "core_shell_bicelle_elliptical"]
     items += [("jensen", n) for n in (aniso if not chk.quick else [x for x in aniso if x in single])]
     if getattr(chk, "only", None):
         items = [it for it in items if chk.only in str(it)]
@@ -443,8 +456,10 @@ def unit_jensen(name):
     accumulation order).  Certificate: constants c_k >= 0 with a_k^2 = c_k b_k for all parameter
     values (solver lemma per addend, 1e-9 relative for the round-off of c_k) and sum c_k <= 1;
     then F1^2 <= (sum c_k)(sum b_k) <= F2 by Cauchy-Schwarz."""
+    import time as _time
     label = "jensen/%s" % name
     u = Unit(label, timeout_ms=20000)
+    deadline = _time.time() + (300 if os.environ.get("VERIF_TIER_EFFECTIVE") != "thorough" else 900)
     km = KModel.get(name)
     info = km.info
     u.functions("Fq of %s (IR, interpreted incl. its Gauss quadrature loops; special functions uninterpreted)" % name)
@@ -491,6 +506,9 @@ def unit_jensen(name):
         cs, failed = [], None
         habs = None
         for k, (ak, bk) in enumerate(zip(a, b)):
+            if _time.time() > deadline:
+                failed = (k, "time budget of the extended obligation exhausted", None)
+                break
             fa, fb = kharness.fingerprint(ak), kharness.fingerprint(bk)
             if fa is None or fb is None or fb == 0:
                 failed = (k, "fingerprint")
@@ -499,10 +517,18 @@ def unit_jensen(name):
             cs.append(ck)
             c = symx.rat(ck)
             tol = symx.rat(1e-9)
+            # the form-factor value shared by the two addends becomes one symbol (sound generalisation)
+            ak, bk = symx.generalize_shared(z3.simplify(ak), z3.simplify(bk))
             lhs, rhs = ak * ak, c * bk
             diff = lhs - rhs
             phi = z3.And(diff <= tol * z3.If(rhs >= 0, rhs, -rhs), -diff <= tol * z3.If(rhs >= 0, rhs, -rhs))
-            res, m, _s = u.solve(symx.abstract_ufs(H + [z3.Not(phi)]), timeout_ms=10000)
+            # exp(x)^2 = exp(2x), instantiated on the exp atoms of this addend pair
+            exps = symx.apps_of([ak, bk], names={"exp"})
+            ax = [z3.Implies(2 * e1.arg(0) == e2.arg(0), e1 * e1 == e2) for e1 in exps for e2 in exps
+                  if e1.get_id() != e2.get_id()] + [e > 0 for e in exps]
+            res, m, _s = u.solve(symx.abstract_ufs(ax + [z3.Not(phi)]), timeout_ms=10000)
+            if res != "unsat":
+                res, m, _s = u.solve(symx.abstract_ufs(H + ax + [z3.Not(phi)]), timeout_ms=10000)
             u.r["obligations"] += 1
             if res == "unsat":
                 u.r["discharged"] += 1
